@@ -195,26 +195,50 @@ def check_write(res, fmt, dest, overwrite, entry, select, kind, pos, oi):
     elif select == 'unknown_ext':
         fname = 'out.dat'
         kw = {}
+    elif select == 'no_ext':
+        fname = 'notes'
+        kw = {}
+    elif select == 'ext_prefix':          # a proper prefix of the format's first extension: '.cr', '.re', '.fi'
+        fname = 'out' + WRITE_EXT[fmt][0][:3]
+        kw = {}
+    elif select == 'tilde':               # the destination spelt with a leading '~' (HOME is the scratch directory)
+        kw = {'format': fmt}
     elif select == 'unknown_format':
         kw = {'format': 'nope'}
     regs = make_list(fmt, kind, pos)
     if entry == 'region':
         regs = [regs[pos]]
     box = Box(dest, fname)
+    home0 = os.environ.get('HOME')
     try:
         before = box.snapshot()
         res.transitions += 1
         exc = None
+        wpath = box.path
+        if select == 'tilde':
+            os.environ['HOME'] = box.dir
+            wpath = '~/' + fname
         try:
             with warnings.catch_warnings():
                 warnings.simplefilter('ignore')
                 if entry == 'region':
-                    regs[0].write(box.path, overwrite=overwrite, **kw, **opts)
+                    regs[0].write(wpath, overwrite=overwrite, **kw, **opts)
                 else:
-                    Regions(regs).write(box.path, overwrite=overwrite, **kw, **opts)
+                    Regions(regs).write(wpath, overwrite=overwrite, **kw, **opts)
         except BaseException as e:          # noqa
             exc = e
+        finally:
+            if select == 'tilde':
+                if home0 is None:
+                    os.environ.pop('HOME', None)
+                else:
+                    os.environ['HOME'] = home0
         after = box.snapshot()
+        if select in ('unknown_ext', 'no_ext', 'ext_prefix', 'unknown_format') and exc is None:
+            res.violation(ID, 'unidentifiable_destination_written', case,
+                          f'{fmt} regions written to {fname!r} with {kw or "no format"}: no format can be identified, yet the write succeeded '
+                          f'(listing {before["listing"]} -> {after["listing"]})', 'an exception', 'no exception')
+            return
         existed = before['lexists']
         res.outcome((fmt, dest, overwrite, 'raised' if exc else 'wrote'))
         if existed or exc is not None:
@@ -223,7 +247,10 @@ def check_write(res, fmt, dest, overwrite, entry, select, kind, pos, oi):
             if exc is None:
                 res.violation(ID, 'existing_destination_overwritten', case,
                               f'{fmt}: destination ({dest}) existed, overwrite=False, but the write succeeded', 'OSError', 'no exception')
-            elif not isinstance(exc, OSError) and select not in ('unknown_ext', 'unknown_format') and 'bogus' not in opts:
+            elif not isinstance(exc, OSError) and select not in ('unknown_ext', 'unknown_format', 'no_ext', 'ext_prefix', 'tilde') \
+                    and 'bogus' not in opts:
+                # (unidentifiable names fail in the registry before any writer sees the destination; a '~' is not expanded by the
+                # text writers, so for them the destination they are given does not exist: any failure will do, nothing may change)
                 res.violation(ID, 'existing_destination_wrong_exception', case,
                               f'{fmt}: destination ({dest}) existed, overwrite=False: raised {type(exc).__name__}: {exc} instead of OSError',
                               'OSError', type(exc).__name__)
@@ -332,7 +359,8 @@ def check_reuse(res, order):
 def cases(tier):
     out = []
     for fmt in FORMATS:
-        selects = ['explicit'] + [f'ext:{e}' for e in WRITE_EXT[fmt]] + [f'ext:{e.upper()}' for e in WRITE_EXT[fmt]] + ['unknown_ext', 'unknown_format']
+        selects = ['explicit'] + [f'ext:{e}' for e in WRITE_EXT[fmt]] + [f'ext:{e.upper()}' for e in WRITE_EXT[fmt]] + \
+            ['unknown_ext', 'unknown_format', 'no_ext', 'ext_prefix', 'tilde']
         for dest in DESTS:
             for ow in (False, True):
                 for entry in ('regions', 'region'):
